@@ -537,6 +537,8 @@ impl CoreApi for Enforcer {
     async fn set_model<M: TryIntoModel>(&mut self, m: M) -> Result<()> {
         self.model = m.try_into_model().await?;
         self.load_policy().await?;
+        // the new model may define role definitions the old one did not have
+        self.register_g_functions()?;
         Ok(())
     }
 
